@@ -53,7 +53,7 @@ fn run_suite<C: Suite>(ctx: &mut Ctx) {
 
     let req = [
         "Signature::verify/pk", "Signature::verify/sig", "Signature::verify/pk+sig",
-        "AggregateSignature::verify/pk@i", "AggregateSignature::verify/agg=O(k,-k)", "AggregateSignature::verify/agg=O",
+        "AggregateSignature::verify/pk@i", "AggregateSignature::verify/pk@i(repeated-message)", "AggregateSignature::verify/agg=O(k,-k)", "AggregateSignature::verify/agg=O",
         "MultiSignature::verify/mpk=O,msig=O", "MultiSignature::verify/mpk=O", "MultiSignature::verify/msig=O",
         "ProofOfPossession::verify/pk", "ProofOfPossession::verify/proof", "ProofOfPossession::verify/pk+proof",
         "ProofOfKnowledge::verify/u", "ProofOfKnowledge::verify/v", "ProofOfKnowledge::verify/pk", "ProofOfKnowledge::verify/y=0",
@@ -139,6 +139,31 @@ fn run_suite<C: Suite>(ctx: &mut Ctx) {
                 let agg_o = wrap_agg::<C>(scheme, sig_id::<C>());
                 let a = kx.ctx.guard("AggregateSignature::verify", dd, || agg_o.verify(&data).is_ok());
                 kx.must_reject("AggregateSignature::verify", "agg=O", sn, twin, a, &[&kb, &[cnt as u8]], dd);
+            }
+            // identity key that carries the SAME message as an earlier honest entry (allowed in
+            // PoP and Aug): an implementation that merges keys per message before checking them
+            // would never look at it. Aggregate = the honest pairs only, so the product is satisfied.
+            if scheme != Scheme::Basic {
+                for cnt in [2usize, 3, 5] {
+                    let keys: Vec<RS> = (0..cnt).map(|_| gen::random_scalar(&mut rng)).collect();
+                    let sigs: Vec<RSig<C>> = keys.iter().map(|k| refimpl::sign::<C::R>(scheme, k, &msg)).collect();
+                    let pks: Vec<PublicKey<C>> = keys.iter().map(|k| sk_from_rs::<C>(k).public_key()).collect();
+                    let agg = wrap_agg::<C>(scheme, ls::<C>(refimpl::sum(sigs.iter().copied())));
+                    let honest: Vec<(PublicKey<C>, Vec<u8>)> = pks.iter().map(|p| (*p, msg.clone())).collect();
+                    let twin = agg.verify(&honest).is_ok();
+                    for pos in 1..=cnt {
+                        let mut d2 = honest.clone();
+                        d2.insert(pos, (o_pk, msg.clone()));
+                        let a = kx.ctx.guard("AggregateSignature::verify", dd, || agg.verify(&d2).is_ok());
+                        kx.must_reject("AggregateSignature::verify", "pk@i(repeated-message)", sn, twin, a, &[&kb, &[cnt as u8, pos as u8]], || {
+                            let mut x = dd();
+                            x["n"] = json!(cnt + 1);
+                            x["identity_at"] = json!(pos);
+                            x["note"] = json!("the identity key carries the same message as the other entries");
+                            x
+                        });
+                    }
+                }
             }
             // empty list with identity aggregate (pairing over nothing but (O,-g) is 1)
             {
